@@ -267,3 +267,19 @@ func C12LeaveWithQueued() {
 	v.probe("after-leave-with-queued-requests")
 	sym.Reach("leave-queued-done")
 }
+
+// C12StalledReader: a client sends calls and stops READING (its receive window fills up: from some
+// write on, the server's writes to that connection block until the connection goes away). Other
+// clients must still be answered within bounded time.
+func C12StalledReader() {
+	v := newZZVictim(0)
+	v.hostile.mu.Lock()
+	v.hostile.blockWrites = v.hostile.writes + 1 + sym.Choose("answers-accepted-before-the-stall", 2)
+	v.hostile.mu.Unlock()
+	for i := 0; i < 3; i++ {
+		v.hostile.inject(zzFrame(net.Call, v.sid, 1, 2, uint32(300+i), zzLE32(1)))
+	}
+	sym.Quiesce()
+	sym.Reach("stalled-reader-probed")
+	v.probe("after-stalled-reader")
+}
